@@ -10,7 +10,8 @@
        the handler invocations are exactly the requests that were sent, in order, each at most
        once, nothing else is ever dispatched or answered, a response the server produced without
        calling the handler is only allowed for a request it may refuse and ends the connection, and
-       after a request whose body has no end (malformed, or cut off) nothing more happens. *)
+       after a request whose body has no end (malformed, or cut off) nothing more happens.
+       Whether a response reaches the peer is not part of C02: a handler call without a response is accepted. *)
 From FH Require Import Model.Base Model.BodyConsume.
 Open Scope Z_scope.
 
@@ -83,6 +84,11 @@ Fixpoint judge (c : cfg) (rs : list req) (tr : list event) : bool :=
              | EHijack :: t' => match t' with [] => true | _ => false end
              | _ => if well_framed r then judge c rest t else match t with [] => true | _ => false end
              end)
+        | EDispatch id _ _ :: t =>
+            (* the handler ran but no response is seen (the connection ended first): C02 says nothing about
+               delivery; what follows must still be the following requests *)
+            (id =? r_id r) && negb (expectation_rejected c r) &&
+            (if well_framed r then judge c rest t else match t with [] => true | _ => false end)
         | [EResp _ _] => may_refuse c r                (* the server's own answer: allowed for such a request, and it is the end *)
         | [] => r_expect r                             (* only "100 Continue", then closed *)
         | _ => false
